@@ -81,7 +81,8 @@ static std::vector<Elem> alphabet() {
 
 struct Built {
     std::vector<uint8_t> enc;            /* codec encoding */
-    std::vector<rv::Item> expect;        /* field dump after a codec-level decode of enc */
+    std::vector<rv::Item> expect;        /* field dump of the ORIGINAL object (after write()'s pre-processing) */
+    std::set<std::string> cmp;           /* fields that are part of the object's value: serialised ones + layout selectors */
     const std::type_info * ti;
     uint32_t type;
     bool ok = true;
@@ -97,15 +98,29 @@ static Built prebuild(const Elem & e, long cont) {
     Built b;
     std::unique_ptr<ObjectHeaderBase> o(make(e, cont));
     MemFile mf;
+    mf.record = true;
     o->write(mf);
     b.enc = mf.data;
     b.ti = &typeid(*o);
     b.type = (uint32_t)o->objectType;
+    b.expect = rv::dump(*o);
+    /* which fields does this object serialise? (layout map: a chunk whose source lies inside the field / its container) */
+    rv::ListV l;
+    refl::dispatch(*o, l);
+    auto inside = [&](const void * a, size_t n) {
+        for (auto & c : mf.chunks) { const char * sp = (const char *)c.src; if (sp >= (const char *)a && sp < (const char *)a + (n ? n : 1)) return true; }
+        return false;
+    };
+    bool any = false;
+    const char * ob = reinterpret_cast<const char *>(o.get());
+    const refl::ClassInfo * ci = refl::class_of(*o);
+    for (auto & c : mf.chunks) { const char * sp = (const char *)c.src; if (ci && sp >= ob && sp < ob + ci->size) any = true; }
+    for (auto & sc : l.scalars)
+        if (!any || inside(sc.addr, sc.size) || sc.path == "apiMajor" || sc.path.find("_present") != std::string::npos) b.cmp.insert(sc.path);
+    for (auto & v : l.vars)
+        if (!any || v.count == 0 || inside(v.data, v.count * v.elem)) b.cmp.insert(v.path);
     std::unique_ptr<ObjectHeaderBase> o2(File::createObject(o->objectType));
-    if (!o2) { b.ok = false; return b; }
-    MemFile in(mf.data);
-    try { o2->read(in); } catch (...) { b.ok = false; }
-    if (b.ok) b.expect = rv::dump(*o2);
+    if (!o2) b.ok = false;
     return b;
 }
 
@@ -222,7 +237,13 @@ static SessionResult session(const std::vector<const Elem *> & seq, const std::v
                 report("C01", "type|" + nm, "object " + std::to_string(got) + " read back with another class or type code (" + std::to_string((uint32_t)o->objectType) + " vs " + std::to_string(b.type) + ")", label);
             else {
                 std::vector<rv::Item> d = rv::dump(*o);
-                std::string df = rv::diff(b.expect, d);
+                std::string df = rv::diff(b.expect, d, [&](const std::string & p) {
+                    std::string q = p;
+                    size_t br = q.find('[');
+                    if (q.size() > 5 && q.substr(q.size() - 5) == ".size") q = q.substr(0, q.size() - 5);
+                    else if (br != std::string::npos) q = q.substr(0, br);
+                    return b.cmp.count(q) == 0 && b.cmp.count(p) == 0;
+                });
                 if (!df.empty()) report("C01", "field|" + nm + "|" + df.substr(0, df.find(':')), "object " + std::to_string(got) + " (" + nm + ") read back with a changed field: " + df, label);
             }
             if (!f.good()) report("C01", "good|" + nm, "good() false after a delivered object", label);
